@@ -280,6 +280,43 @@ def rule_flow(ctx):
     has16 = any(c[0] == "cmp" and c[1] in ("Eq", "Ne") and T.strip(c[3])[0] == "const" and T.strip(c[3])[1] == 0x16 for c in conds_all if c[0] == "cmp") or \
         any(s["k"] == "assign" and s["r"]["k"] == "binop" and s["r"]["op"] == "Eq" and "k" in s["r"]["b"] and T.const_value(s["r"]["b"]["k"])[1] == 0x16 for _, _, s in tb.iter_stmts())
     ctx.check(has5 and has16, "R3", "is_tls_traffic", "needs 5 bytes and content type 0x16", "TLS header test lost its length (5) or handshake-type (0x16) check", ctx.loc(tb))
+    # accepted record versions: exactly 0x0300 ..= 0x0304 (SSL 3.0 .. TLS 1.3 record layer)
+    rng = None
+    for i, j, s in tb.iter_stmts():
+        if s["k"] != "assign":
+            continue
+        t = T.strip(ST.rvalue(s["r"], i, j))
+        for x in T.walk(t):
+            if x[0] == "call" and x[1].endswith("RangeInclusive::<Idx>::new") and len(x[2]) == 2:
+                rng = (T.fold_int(x[2][0]), T.fold_int(x[2][1]), "inclusive")
+            if x[0] == "agg" and x[1] == "adt" and (x[2] or "").endswith("ops::Range") and len(x[4]) == 2 and T.fold_int(x[4][0]) is not None:
+                hi = T.fold_int(x[4][1])
+                rng = (T.fold_int(x[4][0]), hi - 1 if hi is not None else None, "half-open")
+    for blk, t in tb.calls():
+        if callee_of(t).endswith("::contains"):
+            a = Q.call_args(tb, ST, blk, t)
+            for x in T.walk(a[0]):
+                if x[0] == "call" and x[1].endswith("RangeInclusive::<Idx>::new") and len(x[2]) == 2:
+                    rng = (T.fold_int(x[2][0]), T.fold_int(x[2][1]), "inclusive")
+                if x[0] == "agg" and x[1] == "adt" and (x[2] or "").endswith("ops::Range") and len(x[4]) == 2:
+                    hi = T.fold_int(x[4][1])
+                    rng = (T.fold_int(x[4][0]), hi - 1 if hi is not None else None, "half-open")
+                if x[0] == "const" and isinstance(x[1], (bytes, bytearray)) and len(x[1]) >= 4 and "Range" in (x[3] or ""):
+                    import struct as _st
+                    lo, hi = _st.unpack("<HH", bytes(x[1][:4]))
+                    if "RangeInclusive" in x[3]:
+                        rng = (lo, hi, "inclusive")
+                    else:
+                        rng = (lo, hi - 1, "half-open")
+    if rng is None:
+        # comparison pair  version >= 0x0300 && version <= 0x0304
+        los = [T.fold_int(c[3]) for c in conds_all if c[0] == "cmp" and c[1] in ("Ge", "Lt") and T.fold_int(c[3]) is not None and T.has_call(c[2], "from_be_bytes")]
+        his = [(c[1], T.fold_int(c[3])) for c in conds_all if c[0] == "cmp" and c[1] in ("Le", "Gt", "Lt", "Ge") and T.fold_int(c[3]) is not None and T.has_call(c[2], "from_be_bytes")]
+        if los and his:
+            rng = (min(los), max(h - 1 if op in ("Lt", "Ge") and h > 0x300 else h for op, h in his), "comparisons")
+    ctx.check(rng is not None and rng[0] == 0x0300 and rng[1] == 0x0304, "R3", "is_tls_traffic:versions", "record versions 0x0300 ..= 0x0304 admitted",
+              "the TLS header test admits record versions %s: a ClientHello whose record layer says %s is never admitted as a new flow although the reader parses it"
+              % ("0x%04x..=0x%04x (%s)" % (rng[0] or 0, rng[1] or 0, rng[2]) if rng else "not recognised", "0x0304" if rng and rng[1] == 0x0303 else "an accepted version"), ctx.loc(tb))
 
 
 def rule_retained(ctx):
@@ -288,7 +325,15 @@ def rule_retained(ctx):
     W.state_retained(ctx, ctx.program, "huginn_net_tls", "tls", "R3", 2)
 
 
+def rule_segments(ctx):
+    """R3: the reader is fed the TCP payload bounded by the IP length; results carry the packet's own endpoints"""
+    from . import _endpoints as E
+    E.tcp_from_payload(ctx, ctx.program, "R3", ("huginn_net_tls",))
+    E.ipport_pairing(ctx, ctx.program, "R3", ("huginn_net_tls",))
+
+
 def run(ctx):
+    rule_segments(ctx)
     rule_reader(ctx)
     rule_flow(ctx)
     rule_retained(ctx)
